@@ -292,6 +292,19 @@ def check_C08(ctx):
         cases.append((b'm', {b'm': text.encode()}, {'text': {'m': text}, 'defs': defs, 'main': main}))
     cases.append((b'm', {b'm': b'PROGRAM g IN y DO INCLUDE "c" x0 := y INCLUDE "b" PROGRAM f IN x DO x0 := x END x2 := 1',
                          b'c': b'x1 := 1;', b'b': b'END'}, {'text': 'F5 witness (header continuing a line after an include)'}))
+    # macro bodies that continue in an included file, with temporaries and slots as the position-giving tokens of statements
+    # there (different line numbers in the two files, uses in a third position)
+    for _ in range(ctx.n(40, 400)):
+        rr_ = ctx.rnd
+        pad1, pad2, pad3 = rr_.randint(0, 6), rr_.randint(0, 8), rr_.randint(0, 3)
+        tail = '\n' * pad2 + rr_.choice(['#1 := 5;\nx1 := #1', '#0 := $0 ;\n#1 := #0 ;\n$0 := #1', 'x2 := 1;\n\n#1 := x2;\nLOOP #1 DO\nx1 := x1 + 1\nEND'])
+        slot = rr_.random() < 0.5
+        head = ('DEFINE foo <ID> AS #0 := $0;' if slot else 'DEFINE foo AS #0 := 1;') + '\n' * pad3 + ' include "tail"\nEND DEFINE\n'
+        use = ('foo x0' if slot else 'foo') + rr_.choice(['', ';\nx2 := 3', ';\n' + ('foo x1' if slot else 'foo')])
+        fl = {b'm': ('\n' * pad1 + head + use).encode(), b'tail': tail.encode()}
+        if '$0' in tail and not slot:
+            continue
+        cases.append((b'm', fl, {'text': {k.decode(): v.decode() for k, v in fl.items()}}))
     # a supplied file that bears the NAME of the hidden standard-macro file (a vendored copy of the built-in operators, an
     # unrelated file, an empty one), included or not: it is a supplied file like any other, and no location may name anything else
     stdtext = std_macro_text()
@@ -408,6 +421,9 @@ def check_C10(ctx):
                 shapes.append((b'm', {b'm': b'include "' + nm + b'"\n' + u.encode(), nm: (b'\n' * r.choice([0, 3, 12345])) + defs.encode()}))
     many = 'DEFINE CNT <INT> <INT> <INT> <INT> <INT> <INT> <INT> <INT> <INT> <INT> <INT> <INT> AS #0 := 1; CNT2 END DEFINE\n'
     shapes.append((b'm', {b'm': ('DEFINE STEP AS #0 := 1 END DEFINE\n' + '; '.join(['STEP'] * 120)).encode()}))
+    # more rewriting steps than three digits can number (the front end allows 1024): every use is its own expansion step
+    NUSES = 1012
+    shapes.append((b'm', {b'm': ('DEFINE STEP AS #0 := 1 END DEFINE\n' + '; '.join(['STEP'] * NUSES)).encode()}))
     sc = impl(ctx, ['SCAN ' + files_req(m, dict(f)) for (m, f) in shapes])
     for (m, f), sres in zip(shapes, sc):
         desc = {'main': m.decode('latin1'), 'files': {k.decode('latin1'): v.decode('latin1')[:300] for k, v in f.items()}}
@@ -417,9 +433,10 @@ def check_C10(ctx):
         if is_crash(e):
             continue
         fe = fields(e)
-        req = 'APPLY 200 %s %s' % (fe['macros'], fe['out'])
-        ap = impl(ctx, [req], timeout=60)[0]
-        mo_ = model(ctx, [req], timeout=120)[0] if ctx.driver else None
+        nuses = f[m].count(b'STEP') - 1 if b'DEFINE STEP AS' in f[m] else 0
+        req = 'APPLY %d %s %s' % (max(200, nuses + 12), fe['macros'], fe['out'])
+        ap = impl(ctx, [req], timeout=180)[0]
+        mo_ = model(ctx, [req], timeout=300)[0] if ctx.driver else None
         ctx.cov['evaluations'] += 1
         if is_crash(ap):
             ctx.violation('apply-crash', 'apply_macros crashed: ' + ap[:200], desc)
@@ -428,6 +445,13 @@ def check_C10(ctx):
             ctx.stage_broken('APPLY stage: model and implementation differ in `toks` (unusual file names / many passes)',
                              'impl %s\nmodel %s' % (fields(ap)['toks'][:300], fields(mo_)['toks'][:300]), desc)
         toks = parse_toks(fields(ap)['toks'])
+        if nuses:
+            # one fresh name per use, whatever the naming scheme
+            src_words = {b'x', b':=', b';', b'1', b'EOF', b'STEP'}
+            invented = [t[1] for t in toks if t[0] == 1 and t[1] not in src_words]
+            if len(set(invented)) != nuses:
+                ctx.violation('temp-shared-between-steps', '%d uses of a macro with one temporary give %d distinct temporary names (e.g. %s)' % (
+                    nuses, len(set(invented)), sorted(set(x for x in invented if invented.count(x) > 1))[:2] if len(invented) < 4000 else ''), desc)
         temps = [t[1] for t in toks if t[0] == 1 and t[1].startswith(b'#')]
         per = {}
         shapeok = True
